@@ -4,7 +4,7 @@
    the same for the syscall mask. *)
 From Coq Require Import List Ascii NArith ZArith Bool.
 Import ListNotations.
-Require Import Bytes Mach RuleDecode Mask.
+Require Import Bytes Mach RuleDecode Mask RuleText.
 Open Scope N_scope.
 
 (* every byte slice: the decoder returns data or an error *)
@@ -17,6 +17,16 @@ Theorem C13_success_valid : forall data r, decode data = Ok r ->
   exists h buf, from_wire data = Ok (h, buf) /\ fcount h <= 64 /\ length (r_fields r) = N.to_nat (fcount h) /\
                 (1040 + N.to_nat (buflen h) <= length data)%nat.
 Proof. exact decode_ok_valid. Qed.
+(* ToCommandLine as modelled (Model/RuleText.v): whenever it returns text, the bytes decoded, hence were structurally valid *)
+Theorem C13_text_implies_valid : forall data t, text_of_wire data = Some t ->
+  exists r h buf, decode data = Ok r /\ from_wire data = Ok (h, buf) /\ fcount h <= 64 /\ (1040 + N.to_nat (buflen h) <= length data)%nat.
+Proof.
+  intros data t H. unfold text_of_wire in H. destruct (from_wire data) as [[h buf]|e|] eqn:E; try discriminate.
+  destruct (from_audit_rule_data h buf) as [rd|e|] eqn:E2; try discriminate.
+  assert (Hd: decode data = Ok rd) by (unfold decode; rewrite E; exact E2).
+  destruct (decode_ok_valid _ _ Hd) as (h' & buf' & Hfw & Hc & _ & Hl). rewrite E in Hfw. injection Hfw as <- <-.
+  exists rd, h, buf. auto.
+Qed.
 (* the mask: any syscall number is either set or rejected, never an index out of range *)
 Theorem C13_mask_total : forall m n, (exists m', set_syscall m n = Some m' /\ length m' = length m) \/ set_syscall m n = None.
 Proof.
@@ -27,4 +37,5 @@ Qed.
 
 Print Assumptions C13_decode_total.
 Print Assumptions C13_success_valid.
+Print Assumptions C13_text_implies_valid.
 Print Assumptions C13_mask_total.
